@@ -1,5 +1,6 @@
 import Norad.Model.FontLoad
 import Norad.Lemmas.FontLoad
+import Norad.Generated.SaveOrder
 /-!
 # C17 — a partial load equals the full load restricted to what was requested
 
@@ -259,5 +260,62 @@ example : finishLayers alwaysTrue ([l1, l0].filter fun l => shouldLoad alwaysTru
   rfl
 
 example : finishLayers Request.everything [l1, l0] = .ok [l0, l1] := by rfl
+
+/-! ### source-level tie: which request switch guards which file in `Font::load_impl`, as the code says it NOW
+
+`Generated.SaveOrder.loadSwitches` is regenerated from `src/font.rs` on every run.  The model's own table is not
+written down: it is MEASURED on `loadImpl` — switch `s` guards file `c` iff corrupting `c` (and nothing else) makes
+the load with only `s` requested fail. -/
+
+namespace Source
+
+def switchNames : List String := ["data", "features", "groups", "images", "kerning", "lib"]
+def guarded : List String := ["data", "features.fea", "groups.plist", "images", "kerning.plist", "lib.plist"]
+
+def probeParser : Parser Nat where
+  metainfo _ := some (3, 1)
+  lib b := if b = 9 then none else some (some [])
+  fontinfo _ := none
+  groups b := if b = 9 then none else some (1, true)
+  kerning b := if b = 9 then none else some 1
+  features b := if b = 9 then none else some 1
+  layercontents _ := some [("public.default".toList, "glyphs".toList)]
+  contents _ := some []
+  layerinfo _ := none
+  glif _ := none
+
+/-- a complete small UFO in which exactly `corrupt` is unusable: a single file gets unparsable bytes, `data` is a plain
+    file instead of a directory, `images` holds a sub-directory -/
+def probeTree (corrupt : String) : FS Nat :=
+  let top (name : String) : APath × Node Nat := (["t".toList, name.toList], .file (if corrupt = name then 9 else 0))
+  [(["t".toList], .dir), top "metainfo.plist", top "layercontents.plist", (["t".toList, "glyphs".toList], .dir),
+   (["t".toList, "glyphs".toList, "contents.plist".toList], .file 0),
+   top "lib.plist", top "groups.plist", top "kerning.plist", top "features.fea",
+   (["t".toList, "data".toList], if corrupt = "data" then .file 0 else .dir),
+   (["t".toList, "images".toList], .dir)] ++
+  (if corrupt = "images" then [(["t".toList, "images".toList, "sub".toList], .dir)] else [])
+
+def onlySwitch (s : String) : Request :=
+  { lib := s = "lib", groups := s = "groups", kerning := s = "kerning", features := s = "features",
+    data := s = "data", images := s = "images", all := false, loadDefault := false, custom := none }
+
+def loads (s c : String) : Bool :=
+  match loadImpl probeParser (probeTree c) ["t".toList] (onlySwitch s) with
+  | .ok _ => true
+  | .error _ => false
+
+/-- the switch → file table of the model, measured -/
+def modelSwitches : List (List Char × List Char) :=
+  switchNames.flatMap fun s => (guarded.filter fun c => !loads s c).map fun c => (s.toList, c.toList)
+
+end Source
+
+open Source Generated.SaveOrder in
+/-- **The switch wiring of the source is the one of the model**: the extracted `request.<switch>` → file table equals
+    the table measured on `loadImpl` (and the intact probe tree loads under every single-switch request, so each
+    failure is due to the corrupted file). -/
+theorem source_switches_match_model :
+    loadSwitches = modelSwitches ∧ (switchNames.all fun s => loads s "") = true := by
+  decide
 
 end C17
